@@ -91,6 +91,13 @@ impl<'r> Section<'r> {
     pub fn thorough(&self) -> bool { self.rep.tier == Tier::Thorough }
 }
 
+/// Flood gate: a change that makes (nearly) every case fail would otherwise spend minutes building and dropping violation details.
+/// Once FLOOD_CAP violations have been reported the enumerators of `lattice.rs` skip their remaining points; the run exits 1 anyway
+/// and the evidence lists the cap under `caps_hit`.  Never reached on a tree where the property holds.
+pub static FLOOD: AtomicU64 = AtomicU64::new(0);
+pub const FLOOD_CAP: u64 = 50_000;
+pub fn flooded() -> bool { FLOOD.load(std::sync::atomic::Ordering::Relaxed) >= FLOOD_CAP }
+
 pub struct Report {
     pub property: String,
     pub level: String,
@@ -140,6 +147,12 @@ impl Report {
     pub fn machinery_error(&self, m: String) { self.machinery_errors.lock().unwrap().push(m); }
     pub fn extra(&self, k: &str, v: Value) { self.extra.lock().unwrap().insert(k.to_string(), v); }
     fn push_violation(&self, v: Violation) {
+        // occurrences of a listed known finding do not count towards the flood gate (some have tens of thousands on the unchanged tree)
+        {
+            static KNOWN: std::sync::OnceLock<std::collections::BTreeSet<String>> = std::sync::OnceLock::new();
+            let known = KNOWN.get_or_init(|| load_known(&self.property).into_iter().map(|k| k.0).collect());
+            if !known.contains(&v.key()) { FLOOD.fetch_add(1, std::sync::atomic::Ordering::Relaxed); }
+        }
         // One bucket per kind (site|class): at most 40 kept, the 40 smallest inputs of the kind (the counterexample with the
         // fewest deviations survives).  O(1) per report once a bucket is full and the newcomer is not smaller than its largest
         // member, so a change that makes millions of cases fail costs seconds, not a quadratic scan under the lock.
@@ -257,7 +270,7 @@ impl Report {
             "known_findings_seen": known_hit,
             "new_violation_kinds": printed.keys().collect::<Vec<_>>(),
             "machinery_errors": merrs,
-            "caps_hit": [],
+            "caps_hit": if flooded() { json!([format!("violation flood: more than {} violations were reported, so the enumerators skipped their remaining points (the run fails either way; the counts above are those of the part explored)", FLOOD_CAP)]) } else { json!([]) },
         });
         coverage["build_semantics"] = json!(build_semantics());
         if let Some(l) = &label { coverage["profile_label"] = json!(l); }
